@@ -332,6 +332,54 @@ def specs(prop='C02'):
         else:
             ctx.prove(f'{pre}.non_ast_field.untouched[{label}]', not made and not pushed)
 
+    # ---------------------------------------------------------------------------------------------------------------
+    def run_unmake(ctx, case, loc, pre, label):
+        """_unmake_fst_tree on a small tree: every node that HAS an FST loses the link in both directions (that is what
+        marks it dead); a node WITHOUT an `f` attribute - CPython's shared singleton Load() / Add() ... instances, which
+        every tree parsed in the process references - is not written at all (tagging it would be state shared between all
+        trees and threads, and would keep _make_fst_tree from ever giving a tree its own instance again); children of
+        every kind are reached; strings are not"""
+        AST_CLS = SObj('ASTbase', {})
+        writes = []
+
+        class Node(SObj):
+            pass
+
+        def node(name, **kw):
+            return SObj(name, {}, **kw)
+        shared = node('shared_Load', _fields=())                      # no `f` attribute at all
+        leaf_f = node('leaf.f')
+        leaf = node('leaf', _fields=('ctx',), ctx=shared, f=leaf_f)
+        leaf_f._set('a', leaf, count=False)
+        orphan = node('orphan', _fields=(), f=None)                  # `.f = None` link tolerated
+        el_f = node('el.f')
+        el = node('el', _fields=(), f=el_f)
+        el_f._set('a', el, count=False)
+        top_f = node('top.f')
+        top = node('top', _fields=('value', 'elts', 'names', 'none', 'empty'), value=leaf, elts=[el, None, orphan],
+                   names=['x', 'y'], none=None, empty=[], f=top_f)
+        top_f._set('a', top, count=False)
+        self = SObj('self', {}, a=top)
+        it = Interp({'AST': AST_CLS})
+        g_list, g_str = it.globals.get('list'), it.globals.get('str')
+
+        def getattr_(o, n, *d):
+            v = o._get(n)
+            return (d[0] if d else None) if v is ABSENT else v
+        it.globals['getattr'] = getattr_
+        it.globals['isinstance'] = lambda o, t: (isinstance(o, SObj) if t is AST_CLS else isinstance(o, list) if t is g_list
+                                                 else isinstance(o, str) if t is g_str else False)
+        f = IFunc(it, loc.node, None, '_unmake_fst_tree')
+        stack = [top] if case['stack'] else None
+        r = it.call(f, (self,) + ((stack,) if case['stack'] else ()))
+        ctx.notes['outcome'] = 'return'
+        ctx.prove(f'{pre}.linked_nodes_are_unlinked_both_ways[{label}]',
+                  all(n._get('f') is None for n in (top, leaf, el)) and all(x._get('a') is None for x in (top_f, leaf_f, el_f)))
+        ctx.prove(f'{pre}.shared_singletons_are_not_written[{label}]', shared._get('f') is ABSENT and 'f' not in shared._written,
+                  info='a node without an `f` attribute is one of CPython\'s per-process singleton instances')
+        ctx.prove(f'{pre}.unlinked_node_tolerated[{label}]', orphan._get('f') is None)
+        ctx.prove(f'{pre}.returns_self[{label}]', r is self)
+
     bools = (False, True)
     return [
         Fragment('fst:FST.__new__', prop, 'links.new_child', [dict(existing=e) for e in ('none', 'child', 'root')], run_new,
@@ -345,6 +393,9 @@ def specs(prop='C02'):
         Fragment('fst_core:_set_ast', prop, 'links.set_ast',
                  [dict(valid_fst=v, unmake=u, has_parent=p, new_has_f=h) for v in bools for u in bools for p in bools
                   for h in bools], run_set_ast, min_obligations=3),
+        Fragment('fst_core:_unmake_fst_tree', prop, 'links.unmake', [dict(stack=False), dict(stack=True)], run_unmake,
+                 min_obligations=3, notes='a five-node tree with every child kind (node, list with None, list of str, None, empty '
+                                          'list, shared context singleton)'),
         Fragment('fst_core:_make_fst_tree', prop, 'links.make_tree_node',
                  [dict(kind=k) for k in ('single', 'list', 'ops', 'strs', 'absent')] +
                  [dict(kind=k, owned=o) for k in ('ctx', 'op') for o in bools], run_make_tree_node, min_obligations=1,
